@@ -2,8 +2,10 @@ import ProductMD.Proofs.Builders
 /-!
 # C12 — manifest builders file each entry exactly where the arguments say
 
-Model: `Model/Builders.lean` (`Rpms.add`, `Modules.add`, `ExtraFiles.add` as `State → Args → State × Out`;
-`relativeTo`).  The state is the public mapping as a `PyVal`; theorems quantify over ANY state (also an ill-shaped
+Model: `Model/Builders.lean` (`Rpms.add`, `Modules.add`, `ExtraFiles.add` as `State → Args → State × Out`, each the
+interpretation of the method's statement list as generated from the source, `Gen.*_add_script`; `relativeTo`).
+`Rpms.add_eq` / `Modules.add_eq` / `ExtraFiles.add_eq` (Proofs/Builders.lean, resting on the obligation `C12_scripts`)
+turn the interpreted list into "the documented refusals `rpmsCheck` / `modulesCheck` / `extraCheck`, then the insertion".  The state is the public mapping as a `PyVal`; theorems quantify over ANY state (also an ill-shaped
 one that was loaded), any arguments, any history.
 
 For each builder:
@@ -93,6 +95,7 @@ theorem rpmsCheck_error_class (a : RpmsArgs) (e : Err) (h : rpmsCheck a = .error
   split at h; · cases h; rfl
   split at h; · cases h; rfl
   split at h; · cases h; rfl
+  split at h; · cases h; rfl
   split at h
   · rename_i e' hcn
     cases h
@@ -126,6 +129,7 @@ structure RpmsAccepted (a : RpmsArgs) (p : RpmsPlan) : Prop where
   arch_known : a.arch ∈ Gen.RPM_ARCHES
   arch_binary : a.arch ∉ srcArches
   category_known : a.category ∈ Gen.SUPPORTED_CATEGORIES
+  path_nonempty : a.path ≠ []
   path_relative : Str.startsWith a.path ['/'] = false
   has_colon : ':' ∈ a.nevra
   parsed : ∃ d, parseNvra a.nevra = .ok d ∧ p.key = canonNvra d
@@ -145,6 +149,8 @@ theorem C12_rpms_plan (a : RpmsArgs) (p : RpmsPlan) (h : rpmsCheck a = .ok p) : 
   split at h; · cases h
   rename_i h3
   split at h; · cases h
+  rename_i h3e
+  split at h; · cases h
   rename_i h4
   split at h; · cases h
   rename_i nevra d hcn
@@ -162,7 +168,8 @@ theorem C12_rpms_plan (a : RpmsArgs) (p : RpmsPlan) (h : rpmsCheck a = .ok p) : 
   have h5' : ¬ (a.category = lit "source" ∧ a.srpm.isSome = true) := by simpa using h5
   have h6' : ¬ (a.category ≠ lit "source" ∧ a.srpm.isNone = true) := by simpa using h6
   have h7' : (a.category == lit "source") = archIn nevraSrcArches d.arch := by simpa using h7
-  refine ⟨by simpa using h1, by simpa using h2, by simpa using h3, by simpa using h4, hcolon, ⟨d, hparse, hcanon, ?_⟩, ?_, ?_, rfl⟩
+  refine ⟨by simpa using h1, by simpa using h2, by simpa using h3, by simpa using h3e, by simpa using h4, hcolon,
+    ⟨d, hparse, hcanon, ?_⟩, ?_, ?_, rfl⟩
   · constructor
     · intro hc
       have : (a.category == lit "source") = true := by simpa using hc
@@ -203,24 +210,25 @@ theorem C12_rpms_plan (a : RpmsArgs) (p : RpmsPlan) (h : rpmsCheck a = .ok p) : 
           exact ⟨by simpa using hse, hcol2, d2, hp2, hcan2⟩
 
 /-- each refusing precondition named by the property makes `Rpms.add` raise `ValueError` and return the same
-mapping: unknown arch, source arch, unknown category, absolute path, missing epoch (no `:`), unparsable name,
-category disagreeing with the RPM's own arch -/
+mapping: unknown arch, source arch, unknown category, EMPTY path (F30, repaired), absolute path, missing epoch
+(no `:`), unparsable name, category disagreeing with the RPM's own arch -/
 theorem C12_rpms_refuses (s : PyVal) (a : RpmsArgs)
     (h : a.arch ∉ Gen.RPM_ARCHES ∨ a.arch ∈ srcArches ∨ a.category ∉ Gen.SUPPORTED_CATEGORIES
-       ∨ Str.startsWith a.path ['/'] = true ∨ ':' ∉ a.nevra ∨ (∃ e, parseNvra a.nevra = .error e)
+       ∨ a.path = [] ∨ Str.startsWith a.path ['/'] = true ∨ ':' ∉ a.nevra ∨ (∃ e, parseNvra a.nevra = .error e)
        ∨ (∃ d, parseNvra a.nevra = .ok d ∧ ¬ ((a.category = lit "source") ↔ archIn nevraSrcArches d.arch = true))) :
     Rpms.add s a = (s, .error .valueError) := by
-  unfold Rpms.add
+  rw [Rpms.add_eq]
   cases hc : rpmsCheck a with
   | error e => rw [rpmsCheck_error_class a e hc]
   | ok p =>
     exfalso
     have acc := C12_rpms_plan a p hc
     obtain ⟨d, hd, _, hiff⟩ := acc.parsed
-    rcases h with h | h | h | h | h | h | h
+    rcases h with h | h | h | h | h | h | h | h
     · exact h acc.arch_known
     · exact acc.arch_binary h
     · exact h acc.category_known
+    · exact acc.path_nonempty h
     · rw [acc.path_relative] at h; cases h
     · exact h acc.has_colon
     · obtain ⟨e, he⟩ := h; rw [hd] at he; cases he
@@ -237,7 +245,7 @@ theorem rpmsLeaf_atomic (k : Str) (r x : PyVal) (e : Err) (h : (rpmsLeaf k r x).
 arguments: whatever `Rpms.add` raises, the mapping afterwards is the mapping before. -/
 theorem C12_rpms_refusal (s : PyVal) (a : RpmsArgs) (e : Err) (h : (Rpms.add s a).2 = .error e) :
     (Rpms.add s a).1 = s := by
-  unfold Rpms.add at h ⊢
+  rw [Rpms.add_eq] at h ⊢
   cases hc : rpmsCheck a with
   | error e' => rfl
   | ok p =>
@@ -262,7 +270,7 @@ as before. -/
 theorem C12_rpms_frame (s : PyVal) (a : RpmsArgs) (p : RpmsPlan) (hc : rpmsCheck a = .ok p) (path : List Str)
     (h : Off (OtherKey p.key) path [a.variant, a.arch, p.srpmKey]) :
     getPath (Rpms.add s a).1 path = getPath s path := by
-  unfold Rpms.add
+  rw [Rpms.add_eq]
   rw [hc]
   exact setPathS_frame _ (OtherKey p.key) (by rintro ⟨n, rest, h, _⟩; cases h)
     (fun x q hq => rpmsLeaf_frame _ _ x q hq) _ s path h
@@ -304,7 +312,7 @@ key, the given path and category) is what `[variant][arch][srpm key][rpm key]` h
 theorem C12_rpms_content (s : PyVal) (a : RpmsArgs) (p : RpmsPlan) (hc : rpmsCheck a = .ok p)
     (hok : (Rpms.add s a).2 = .ok ()) :
     getPath (Rpms.add s a).1 [a.variant, a.arch, p.srpmKey, p.key] = some p.record := by
-  unfold Rpms.add at hok ⊢
+  rw [Rpms.add_eq] at hok ⊢
   rw [hc] at hok ⊢
   simp only at hok ⊢
   cases hl : leafArg [a.variant, a.arch, p.srpmKey] s with
@@ -404,7 +412,7 @@ theorem C12_modules_refuses (s : PyVal) (a : ModulesArgs)
        ∨ (∀ t, a.uid ≠ .str t) ∨ (∃ t, a.uid = .str t ∧ ':' ∉ t) ∨ (∃ e, parseUid a.uid = .error e)
        ∨ Str.startsWith a.modulemdPath ['/'] = true ∨ a.modulemdPath = [] ∨ a.kojiTag = [] ∨ a.rpms = .other) :
     Modules.add s a = (s, .error .valueError) := by
-  unfold Modules.add
+  rw [Modules.add_eq]
   cases hc : modulesCheck a with
   | error e => rw [modulesCheck_error_class a e hc]
   | ok p =>
@@ -476,7 +484,7 @@ shape `Modules.add` itself produces; `C12_modules_reachable` shows that every ma
 theorem C12_modules_refusal (s : PyVal) (a : ModulesArgs) (e : Err)
     (hs : ∀ p x, modulesCheck a = .ok p → getPath s [a.variant, a.arch, p.uid] = some x → EntryOK x ∨ ∀ kvs, x ≠ .dict kvs)
     (h : (Modules.add s a).2 = .error e) : (Modules.add s a).1 = s := by
-  unfold Modules.add at h ⊢
+  rw [Modules.add_eq] at h ⊢
   cases hc : modulesCheck a with
   | error e' => rfl
   | ok p =>
@@ -500,7 +508,7 @@ theorem C12_modules_refusal (s : PyVal) (a : ModulesArgs) (e : Err)
 theorem C12_modules_frame (s : PyVal) (a : ModulesArgs) (p : ModulesPlan) (hc : modulesCheck a = .ok p)
     (path : List Str) (h : Off (fun _ => False) path [a.variant, a.arch, p.uid]) :
     getPath (Modules.add s a).1 path = getPath s path := by
-  unfold Modules.add
+  rw [Modules.add_eq]
   rw [hc]
   exact setPathS_frame _ (fun _ => False) (fun h => h) (fun _ _ hq => absurd hq (fun h => h)) _ s path h
 
@@ -532,7 +540,7 @@ theorem C12_modules_content (s : PyVal) (a : ModulesArgs) (p : ModulesPlan) (hc 
       ∧ (∀ c', c' ≠ p.category →
           getPath (Modules.add s a).1 [a.variant, a.arch, p.uid, lit "modulemd_path", c'] = lookup mp c')
       ∧ getPath (Modules.add s a).1 [a.variant, a.arch, p.uid, lit "rpms"] = some (.list (l ++ p.rpms)) := by
-  unfold Modules.add
+  rw [Modules.add_eq]
   rw [hc]
   simp only
   cases hl : leafArg [a.variant, a.arch, p.uid] s with
@@ -608,7 +616,7 @@ theorem C12_extra_refuses (s : PyVal) (a : ExtraArgs)
     (h : a.variant = [] ∨ a.arch ∉ Gen.RPM_ARCHES ∨ a.path = [] ∨ Str.startsWith a.path ['/'] = true
        ∨ a.checksums.isinstance .dict = false) :
     ∃ e, (e = .valueError ∨ e = .typeError) ∧ ExtraFiles.add s a = (s, .error e) := by
-  unfold ExtraFiles.add
+  rw [ExtraFiles.add_eq]
   cases hc : extraCheck a with
   | error e => exact ⟨e, extraCheck_error_class a e hc, rfl⟩
   | ok r =>
@@ -630,7 +638,7 @@ theorem extraLeaf_atomic (arch : Str) (r x : PyVal) (e : Err) (h : (extraLeaf ar
 /-- **Refusal leaves the manifest untouched** — every mapping, all arguments -/
 theorem C12_extra_refusal (s : PyVal) (a : ExtraArgs) (e : Err) (h : (ExtraFiles.add s a).2 = .error e) :
     (ExtraFiles.add s a).1 = s := by
-  unfold ExtraFiles.add at h ⊢
+  rw [ExtraFiles.add_eq] at h ⊢
   cases hc : extraCheck a with
   | error e' => rfl
   | ok r =>
@@ -653,7 +661,7 @@ theorem extraLeaf_frame (arch : Str) (r x : PyVal) (q : List Str) (h : OtherKey 
 theorem C12_extra_frame (s : PyVal) (a : ExtraArgs) (r : PyVal) (hc : extraCheck a = .ok r) (path : List Str)
     (h : Off (OtherKey a.arch) path [a.variant]) :
     getPath (ExtraFiles.add s a).1 path = getPath s path := by
-  unfold ExtraFiles.add
+  rw [ExtraFiles.add_eq]
   rw [hc]
   exact setPathS_frame _ (OtherKey a.arch) (by rintro ⟨n, rest, h, _⟩; cases h)
     (fun x q hq => extraLeaf_frame _ _ x q hq) _ s path h
@@ -675,7 +683,7 @@ theorem C12_extra_content (s : PyVal) (a : ExtraArgs) (r : PyVal) (hc : extraChe
     ∃ l, (getPath s [a.variant, a.arch]).getD (.list []) = .list l
        ∧ getPath (ExtraFiles.add s a).1 [a.variant, a.arch] = some (.list (l ++ [extraRecord a])) := by
   obtain ⟨_, _, _, _, _, hr⟩ := C12_extra_plan a r hc
-  unfold ExtraFiles.add at hok ⊢
+  rw [ExtraFiles.add_eq] at hok ⊢
   rw [hc] at hok ⊢
   simp only at hok ⊢
   cases hl : leafArg [a.variant] s with
@@ -917,7 +925,7 @@ def ModulesShape (s : PyVal) : Prop := shapeAt 3 entryOK s = true
 def ExtraShape (s : PyVal) : Prop := shapeAt 1 (allVals isRecList) s = true
 
 theorem rpms_shape_step (s : PyVal) (a : RpmsArgs) (h : RpmsShape s) : RpmsShape (Rpms.add s a).1 := by
-  unfold Rpms.add
+  rw [Rpms.add_eq]
   cases hc : rpmsCheck a with
   | error e => exact h
   | ok p =>
@@ -925,7 +933,7 @@ theorem rpms_shape_step (s : PyVal) (a : RpmsArgs) (h : RpmsShape s) : RpmsShape
       [a.variant, a.arch, p.srpmKey] s h
 
 theorem modules_shape_step (s : PyVal) (a : ModulesArgs) (h : ModulesShape s) : ModulesShape (Modules.add s a).1 := by
-  unfold Modules.add
+  rw [Modules.add_eq]
   cases hc : modulesCheck a with
   | error e => exact h
   | ok p =>
@@ -937,7 +945,7 @@ theorem modules_shape_step (s : PyVal) (a : ModulesArgs) (h : ModulesShape s) : 
     rfl
 
 theorem extra_shape_step (s : PyVal) (a : ExtraArgs) (h : ExtraShape s) : ExtraShape (ExtraFiles.add s a).1 := by
-  unfold ExtraFiles.add
+  rw [ExtraFiles.add_eq]
   cases hc : extraCheck a with
   | error e => exact h
   | ok r =>
@@ -991,7 +999,7 @@ theorem C12_extra_reachable (h : List ExtraArgs) : ExtraShape (runExtra empty h)
 /-- on a mapping built by `Rpms.add`, the outcome of a call is decided by the precondition checks alone -/
 theorem C12_rpms_outcome (s : PyVal) (hs : RpmsShape s) (a : RpmsArgs) :
     (Rpms.add s a).2 = (rpmsCheck a).map (fun _ => ()) := by
-  unfold Rpms.add
+  rw [Rpms.add_eq]
   cases hc : rpmsCheck a with
   | error e => rfl
   | ok p =>
@@ -1002,7 +1010,7 @@ theorem C12_rpms_outcome (s : PyVal) (hs : RpmsShape s) (a : RpmsArgs) :
 
 theorem C12_modules_outcome (s : PyVal) (hs : ModulesShape s) (a : ModulesArgs) :
     (Modules.add s a).2 = (modulesCheck a).map (fun _ => ()) := by
-  unfold Modules.add
+  rw [Modules.add_eq]
   cases hc : modulesCheck a with
   | error e => rfl
   | ok p =>
@@ -1015,7 +1023,7 @@ theorem C12_modules_outcome (s : PyVal) (hs : ModulesShape s) (a : ModulesArgs) 
 theorem C12_extra_outcome (s : PyVal) (hs : ExtraShape s) (a : ExtraArgs) :
     (ExtraFiles.add s a).2 = (extraCheck a).map (fun _ => ()) := by
   have hstep := extra_shape_step s a hs
-  unfold ExtraFiles.add at hstep ⊢
+  rw [ExtraFiles.add_eq] at hstep ⊢
   cases hc : extraCheck a with
   | error e => rfl
   | ok r =>
@@ -1055,7 +1063,7 @@ theorem C12_modules_error_class (h : List ModulesArgs) (a : ModulesArgs) (e : Er
   have hs := C12_modules_reachable h
   have hout := C12_modules_outcome _ hs a
   rw [hout] at he
-  unfold Modules.add
+  rw [Modules.add_eq]
   cases hc : modulesCheck a with
   | error e' => rw [hc] at he; simp only [Except.map] at he; cases he; exact ⟨modulesCheck_error_class a e hc, rfl⟩
   | ok p => rw [hc] at he; simp [Except.map] at he
@@ -1198,6 +1206,74 @@ theorem C12_dump_for_tree (h : List ExtraArgs) (v a b : Str) :
     skip
     exact C12_dump_for_tree_aux top v a b hs
   all_goals exact absurd hs (by simp [shapeAt, allVals])
+/-! ## Whatever the refusals and their order: no raise after the first mutation
+
+The executable model interprets whatever statement list the source contains.  For EVERY list that consists of
+non-inserting statements followed by the insertion block — any refusals, in any order, known kinds or not — a call
+that raises returns the identical mapping.  (What `C12_scripts` adds is *which* refusals there are.) -/
+
+theorem C12_rpms_refusal_any_script (a : RpmsArgs) :
+    ∀ (checks : List BStep), (∀ st ∈ checks, st ≠ .insert) → ∀ (s : PyVal) (env : REnv) (e : Err),
+      (rpmsRun a (checks ++ [.insert]) s env).2 = .error e → (rpmsRun a (checks ++ [.insert]) s env).1 = s := by
+  intro checks
+  induction checks with
+  | nil =>
+    intro _ s env e h
+    simp only [List.nil_append, rpmsRun, ↓reduceIte] at h ⊢
+    cases hsr : env.srpm with
+    | none => simp [rpmsInsert, hsr]
+    | some k =>
+      simp only [rpmsInsert, hsr] at h ⊢
+      generalize hr : setPathS (rpmsLeaf env.nevra (rpmRecord env.sigkey a.path a.category)) [a.variant, a.arch, k] s = r at h ⊢
+      obtain ⟨s', o⟩ := r
+      cases o with
+      | ok u => simp at h
+      | error e' =>
+        simp only
+        have := setPathS_atomic _ (fun _ => True) (fun x e _ h => rpmsLeaf_atomic _ _ x e h) rfl
+          [a.variant, a.arch, k] s e' (fun _ _ => trivial) (by rw [hr])
+        rw [hr] at this
+        exact this
+  | cons st rest ih =>
+    intro hne s env e h
+    have hst : st ≠ .insert := hne st (List.mem_cons_self)
+    simp only [List.cons_append, rpmsRun, hst, ↓reduceIte] at h ⊢
+    cases hp : rpmsPure a st env with
+    | error e' => simp
+    | ok env' =>
+      rw [hp] at h
+      simp only at h ⊢
+      exact ih (fun x hx => hne x (List.mem_cons_of_mem _ hx)) s env' e h
+
+theorem C12_extra_refusal_any_script (a : ExtraArgs) :
+    ∀ (checks : List BStep), (∀ st ∈ checks, st ≠ .insert) → ∀ (s : PyVal) (e : Err),
+      (extraRun a (checks ++ [.insert]) s).2 = .error e → (extraRun a (checks ++ [.insert]) s).1 = s := by
+  intro checks
+  induction checks with
+  | nil =>
+    intro _ s e h
+    simp only [List.nil_append, extraRun, ↓reduceIte] at h ⊢
+    generalize hr : setPathS (extraLeaf a.arch (extraRecord a)) [a.variant] s = r at h ⊢
+    obtain ⟨s', o⟩ := r
+    cases o with
+    | ok u => simp at h
+    | error e' =>
+      simp only
+      have := setPathS_atomic _ (fun _ => True) (fun x e _ h => extraLeaf_atomic _ _ x e h)
+        (by simp [extraLeaf, lookup]) [a.variant] s e' (fun _ _ => trivial) (by rw [hr])
+      rw [hr] at this
+      exact this
+  | cons st rest ih =>
+    intro hne s e h
+    have hst : st ≠ .insert := hne st (List.mem_cons_self)
+    simp only [List.cons_append, extraRun, hst, ↓reduceIte] at h ⊢
+    cases hp : extraPure a st with
+    | error e' => simp
+    | ok u =>
+      rw [hp] at h
+      simp only at h ⊢
+      exact ih (fun x hx => hne x (List.mem_cons_of_mem _ hx)) s e h
+
 /-! ## Headline: any history, any further call -/
 
 /-- **C12 for `Rpms.add`** — after ANY history of calls, a further call with ANY arguments either is refused
@@ -1216,7 +1292,7 @@ theorem C12_rpms_history (h : List RpmsArgs) (a : RpmsArgs) :
   | error e =>
     left
     refine ⟨e, rfl, rpmsCheck_error_class a e hc, ?_⟩
-    unfold Rpms.add; rw [hc]
+    rw [Rpms.add_eq]; rw [hc]
   | ok p =>
     right
     rw [hc] at hout
@@ -1246,7 +1322,7 @@ theorem C12_modules_history (h : List ModulesArgs) (a : ModulesArgs) :
   | error e =>
     left
     refine ⟨e, rfl, modulesCheck_error_class a e hc, ?_⟩
-    unfold Modules.add; rw [hc]
+    rw [Modules.add_eq]; rw [hc]
   | ok p =>
     right
     obtain ⟨hs, hnav⟩ := C12_modules_content_applies h a p
@@ -1270,7 +1346,7 @@ theorem C12_extra_history (h : List ExtraArgs) (a : ExtraArgs) :
   | error e =>
     left
     refine ⟨e, rfl, extraCheck_error_class a e hc, ?_⟩
-    unfold ExtraFiles.add; rw [hc]
+    rw [ExtraFiles.add_eq]; rw [hc]
   | ok r =>
     right
     rw [hc] at hout
@@ -1280,7 +1356,7 @@ theorem C12_extra_history (h : List ExtraArgs) (a : ExtraArgs) :
     exact ⟨rfl, hok, C12_extra_content _ a _ hc hok, fun path hp => C12_extra_frame _ a _ hc path hp⟩
 
 /-! ## Witnesses: the documented layout on concrete calls, and the two places where the code accepts what the
-property statement lists as refused (known findings C12-K1, C12-K2) -/
+property statement lists as refused (F30, repaired; F31, known) -/
 
 def Out.isOk : Out → Bool
   | .ok _ => true
@@ -1331,15 +1407,38 @@ theorem C12_unparsable_is_valueError :
                       category := lit "binary", srpm := some (lit "foo-0:1-1.src") }).2.raises .valueError = true := by
   decide +kernel
 
-/-- known finding C12-K1: `Rpms.add` has no refusal for an empty path (the other two builders do) -/
-theorem C12_rpms_empty_path_witness :
-    (Rpms.add empty { variant := lit "S", arch := lit "x86_64", nevra := lit "foo-0:1-1.src", path := [], sigkey := none,
-                      category := lit "source" }).2.isOk = true
-    ∧ (ExtraFiles.add empty { variant := lit "S", arch := lit "x86_64", path := [], size := .int 1,
-                              checksums := .dict [] }).2.raises .valueError = true := by
-  decide +kernel
+/-- F30 (repaired by a `fix:` commit): an empty path is refused by all three builders, with `ValueError` and the
+manifest untouched — the statement's "absolute or empty path" is covered for `Rpms.add`, `Modules.add` (modulemd
+path) and `ExtraFiles.add` alike.
+(Before the fix `Rpms.add` had no such test: the call below was accepted and filed a record with path `""`; the
+pre-fix statement list was `[archTable, srcArch, category, absolutePath, nevra, …]`, without `emptyPath`.) -/
+theorem C12_empty_path_refused (s : PyVal) :
+    Rpms.add s { variant := lit "S", arch := lit "x86_64", nevra := lit "foo-0:1-1.src", path := [], sigkey := none,
+                 category := lit "source" } = (s, .error .valueError)
+    ∧ Modules.add s { variant := lit "S", arch := lit "x86_64", uid := .str (lit "m:1"), kojiTag := lit "t",
+                      modulemdPath := [], category := lit "binary", rpms := .list [] } = (s, .error .valueError)
+    ∧ ExtraFiles.add s { variant := lit "S", arch := lit "x86_64", path := [], size := .int 1, checksums := .dict [] }
+        = (s, .error .valueError) := by
+  refine ⟨C12_rpms_refuses s _ (Or.inr (Or.inr (Or.inr (Or.inl rfl)))), C12_modules_refuses s _ ?_, ?_⟩
+  · right; right; right; right; right; right; right; left; rfl
+  · obtain ⟨e, he, heq⟩ := C12_extra_refuses s
+      { variant := lit "S", arch := lit "x86_64", path := [], size := .int 1, checksums := .dict [] }
+      (Or.inr (Or.inr (Or.inl rfl)))
+    rw [heq]
+    rw [ExtraFiles.add_eq] at heq
+    have : extraCheck { variant := lit "S", arch := lit "x86_64", path := [], size := .int 1, checksums := .dict [] }
+        = .error .valueError := by rfl
+    rw [this] at heq
+    cases heq
+    rfl
 
-/-- known finding C12-K2: the missing-epoch test is `":" in nevra`; a `:` in the directory prefix lets an
+/-- the statement lists the model interprets are the documented ones (obligation on the generated file; a refusal
+removed, added or reordered in the source breaks it — and changes the executable model at the same time) -/
+theorem C12_scripts :
+    Gen.rpms_add_script = specRpmsScript ∧ Gen.modules_add_script = specModulesScript
+    ∧ Gen.extra_add_script = specExtraScript := ⟨rpms_script_eq, modules_script_eq, extra_script_eq⟩
+
+/-- known finding F31: the missing-epoch test is `":" in nevra`; a `:` in the directory prefix lets an
 N-V-R.A without epoch through, filed with epoch 0 -/
 theorem C12_rpms_missing_epoch_witness :
     (checkNevra (lit "a:b/foo-1.0-1.src")).toOption.map (·.1) = some (lit "foo-0:1.0-1.src")
